@@ -152,6 +152,8 @@ func RenderAction(a Action) string {
 			}
 		case "ruleEngine":
 			return "ctl:ruleEngine=" + a.Op
+		case "requestBodyAccess", "responseBodyAccess":
+			return "ctl:" + a.S + "=" + a.Op
 		default:
 			return "ctl:" + a.S + "=" + a.Op
 		}
